@@ -541,6 +541,10 @@ static bool apply_filters(const char *event, struct uftrace_python_symbol *sym, 
 		return true;
 
 	if (filter_state.mode == FILTER_MODE_IN) {
+		/* the call of an opt-out function was skipped: skip its return too */
+		if (filter && filter->mode == FILTER_MODE_OUT && !is_entry)
+			return true;
+
 		if (filter_state.count_in > 0)
 			return false;
 
